@@ -35,8 +35,11 @@ text the hand-written model was written against) so that the Coq file still type
                              principals -> ps : list text ; permission -> p : text ; self: not modelled
   lineage(context)           L            (location.lineage is shape-pinned and modelled as the __parent__ chain;
                                            only as a loop iterable or directly inside list(..): it is a generator)
-  list(x)                    x            (x a lineage or an ACL)
-  reversed(x)                rev x        (only as a loop iterable or directly inside list(..))
+  list(x)                    x            (x a lineage or an ACL; the result is a re-iterable list)
+  reversed(x)                rev x        (x a list(..) result; only as a loop iterable or directly inside list(..))
+  v = X.__acl__ (see above)  the ACL value MAY BE A ONE-SHOT ITERATOR (a callable __acl__ written as a generator):
+                             it may be consumed (for .. in v / list(v)) at most once on a path, and only in the loop
+                             iteration that read it; list(v) gives a list that may be iterated again
   set()                      []           (sets of principals = duplicate-free lists, Model/C11_base.v)
   s.add(x)                   s := add x s           s.discard(x)   s := remove x s
   s.remove(x)                s := remove x s  ONLY on a path on which `x in s` was tested true (else KeyError)
@@ -66,12 +69,14 @@ HERE = os.path.dirname(os.path.abspath(__file__))
 FALLBACK = os.path.join(HERE, 'gen_fallback.json')
 
 # ---- types of the translated fragment
+ACLLIST, LINLIST = 'acl(list)', 'lineage(list)'
 TEXT, SET, SETOWN, ACTION, RAWPERMS, PERMS, ACE, ACL, LOC, LINEAGE, BOOL, DECISION, ERASED, CTX = (
     'text', 'set', 'set(own)', 'action', 'perms(raw)', 'perms', 'ace', 'acl', 'loc', 'lineage', 'bool', 'decision',
     'erased', 'context')
 COQTY = {TEXT: 'text', SET: 'list text', SETOWN: 'list text', ACTION: 'action', RAWPERMS: 'perms', PERMS: 'perms',
-         ACE: 'ace', ACL: 'acl', LOC: 'option acl', LINEAGE: 'lineage', BOOL: 'bool', DECISION: 'decision'}
-ELEM = {LINEAGE: LOC, ACL: ACE}
+         ACE: 'ace', ACL: 'acl', LOC: 'option acl', LINEAGE: 'lineage', BOOL: 'bool', DECISION: 'decision',
+         ACLLIST: 'acl', LINLIST: 'lineage'}
+ELEM = {LINEAGE: LOC, LINLIST: LOC, ACL: ACE, ACLLIST: ACE}
 
 
 class Problem(Exception):
@@ -317,6 +322,8 @@ class FnTranslator:
         self.loops_by_binder = {}      # element binder -> Loop
         self.some_of = {}              # binder bound by `Some a` -> key of the scrutinee term
         self.used_globals = set()
+        self.some_depth = {}           # binder bound by `Some a` -> loop nesting depth at the binding
+        self._consumed_now = []        # one-shot ACL values consumed by the expression just translated
 
     # ------------------------------------------------------------ entry
     def translate(self):
@@ -341,6 +348,8 @@ class FnTranslator:
                               ast.GeneratorExp, ast.NamedExpr, ast.Await, ast.Yield, ast.YieldFrom)) or \
                     (isinstance(n, (ast.FunctionDef, ast.AsyncFunctionDef, ast.ClassDef)) and n is not fn):
                 raise Problem('construct outside the subset: %s' % type(n).__name__)
+        env['#depth'] = (0, '#')
+        env['#consumed'] = (frozenset(), '#')
         body = list(fn.body)
 
         def k_end(env2, facts):
@@ -357,6 +366,8 @@ class FnTranslator:
         def k_next(env2, facts2):
             return self.block(rest, env2, facts2, k, jumps)
 
+        self._consumed_now = []
+
         if isinstance(s, ast.Expr) and isinstance(s.value, ast.Constant) and isinstance(s.value.value, str):
             return k_next(env, facts)                                   # docstring / bare string
         if isinstance(s, ast.Pass):
@@ -368,6 +379,7 @@ class FnTranslator:
             want = self.spec['ret']
             if not (ty == want or (want == SET and ty == SETOWN)):
                 raise Problem('return of a %s where a %s is expected: %s' % (ty, want, u(s)))
+            self.no_consumption(s)
             return obj
         if isinstance(s, ast.Continue):
             if jumps is None:
@@ -378,14 +390,17 @@ class FnTranslator:
                 raise Problem('break outside a loop')
             return jumps[1](env, facts)
         if isinstance(s, ast.Assign):
-            return k_next(self.assign(s, env), facts)
+            return k_next(self.consume(self.assign(s, env), s), facts)
         if isinstance(s, ast.Expr):
-            return k_next(self.method_stmt(s, env, facts), facts)
+            env2 = self.method_stmt(s, env, facts)
+            self.no_consumption(s)
+            return k_next(env2, facts)
         if isinstance(s, ast.If):
             env2 = self.idiom(s, env)
             if env2 is not None:
                 return k_next(env2, facts)
             c = self.cond(s.test, env)
+            self.no_consumption(s)
             ft = implied(c, True, dict(facts))
             fe = implied(c, False, dict(facts))
             t = self.block(list(s.body), env, ft, k_next, jumps)
@@ -396,6 +411,32 @@ class FnTranslator:
         if isinstance(s, ast.For):
             return self.for_loop(s, env, facts, k_next)
         raise Problem('statement outside the subset: %s' % u(s).split('\n')[0])
+
+    def no_consumption(self, s):
+        if self._consumed_now:
+            raise Problem('an __acl__ value is iterated inside an expression of: %s' % u(s).split('\n')[0])
+
+    def consume(self, env, s):
+        """an ACL read from X.__acl__ may be a one-shot iterator (a callable __acl__ written as a generator): it may
+        be iterated at most once on a path, and only in the loop iteration that read it"""
+        if not self._consumed_now:
+            return env
+        done = set(env['#consumed'][0])
+        depth = env['#depth'][0]
+        for t in self._consumed_now:
+            if not isinstance(t, V) or t.name not in self.some_depth:
+                raise Problem('iteration over an ACL value of unknown origin: %s' % u(s).split('\n')[0])
+            if t.name in done:
+                raise Problem('the value read from __acl__ is iterated a second time (it may be a one-shot iterator, '
+                              'e.g. a generator returned by a callable __acl__): %s' % u(s).split('\n')[0])
+            if self.some_depth[t.name] != depth:
+                raise Problem('the value read from __acl__ outside this loop is iterated in every iteration of it '
+                              '(it may be a one-shot iterator): %s' % u(s).split('\n')[0])
+            done.add(t.name)
+        self._consumed_now = []
+        env = dict(env)
+        env['#consumed'] = (frozenset(done), '#')
+        return env
 
     def bind_ace(self, names, term, env):
         env = dict(env)
@@ -517,6 +558,7 @@ class FnTranslator:
         self.used_globals.add('AttributeError')
         binder = 'a_%s_%d' % (_ident(v), len(self.some_of) + 1)
         self.some_of[binder] = xobj.key()
+        self.some_depth[binder] = env['#depth'][0]
         none = self.block(list(s.handlers[0].body), env, facts, k_next, jumps)
         env2 = dict(env)
         env2[v] = (V(binder), ACL)
@@ -529,6 +571,9 @@ class FnTranslator:
         itobj, itty = self.expr(s.iter, env, iterctx=True)
         if itty not in ELEM:
             raise Problem('loop over a %s: %s' % (itty, u(s.iter)))
+        if itty == ACL:
+            self._consumed_now.append(itobj)
+        env = self.consume(env, s)
         self.nloops += 1
         lp = Loop(self.nloops, ELEM[itty], self.spec['ret'])
         lp.iter_key = itobj.key()
@@ -592,6 +637,7 @@ class FnTranslator:
             return k_rest(after(env2), facts2)
 
         env_body = dict(env_head)
+        env_body['#depth'] = (env['#depth'][0] + 1, '#')
         xterm = V(lp.x)
         if len(tnames) == 1:
             env_body[tnames[0]] = (xterm, lp.elem_ty)
@@ -709,22 +755,24 @@ class FnTranslator:
             return K('L'), LINEAGE
         if f == 'list' and len(n.args) == 1:
             obj, ty = self.expr(n.args[0], env, iterctx=True)
-            if ty not in (LINEAGE, ACL):
+            if ty not in (LINEAGE, LINLIST, ACL, ACLLIST):
                 raise Problem('list(..) of a %s: %s' % (ty, u(n)))
+            if ty == ACL:
+                self._consumed_now.append(obj)
             self.used_globals.add(f)
-            return obj, ty
+            return obj, {LINEAGE: LINLIST, ACL: ACLLIST}.get(ty, ty)
         if f == 'reversed' and len(n.args) == 1:
             if not iterctx:
                 raise Problem('reversed(..) is an iterator: only as a loop iterable or directly inside list(..)')
             obj, ty = self.expr(n.args[0], env)
-            if ty not in (LINEAGE, ACL):
-                raise Problem('reversed(..) of a %s: %s' % (ty, u(n)))
+            if ty not in (LINLIST, ACLLIST):
+                raise Problem('reversed(..) of a %s (needs a sequence: list(..) it first): %s' % (ty, u(n)))
             self.used_globals.add(f)
             return A('rev', [obj]), ty
         if f in ('ACLAllowed', 'ACLDenied') and len(n.args) == 5:
             self.used_globals.add(f)
             a_ace, a_acl, a_perm, a_princ, a_ctx = n.args
-            for arg, types in ((a_acl, (ACL, ERASED)), (a_perm, (TEXT,)), (a_princ, (SET,))):
+            for arg, types in ((a_acl, (ACL, ACLLIST, ERASED)), (a_perm, (TEXT,)), (a_princ, (SET,))):
                 obj, ty = self.expr(arg, env)
                 if ty not in types:
                     raise Problem('%s: argument %s is a %s' % (u(n).split('(')[0], u(arg), ty))
